@@ -125,6 +125,9 @@ class AstProfileTransformer(ast.NodeTransformer):
                 continue
             self._profiled_imports.append(node_name)
             expr = ast_create_profile_node(node_name)
+            # The inserted statement belongs to the line of the import
+            for new_node in ast.walk(expr):
+                ast.copy_location(new_node, node)
             visited.append(expr)
         return visited
 
